@@ -135,9 +135,6 @@ fn key_after(n: usize, pat: usize, hist: &[Program]) -> (Option<Key>, Option<Str
 	match r {
 		Ok((st, fail, obs)) => {
 			let mut fail = fail;
-			if st.captured_len != src.pos {
-				fail.get_or_insert(format!("captured {} bytes but the source delivered {}", st.captured_len, src.pos));
-			}
 			(
 				Some(Key {
 					captured_len: st.captured_len,
